@@ -16,6 +16,7 @@ import (
 	"strings"
 
 	"github.com/gittuf/gittuf/internal/attestations"
+	ita "github.com/in-toto/attestation/go/v1"
 	"github.com/gittuf/gittuf/internal/attestations/authorizations"
 	"github.com/gittuf/gittuf/internal/common/set"
 	"github.com/gittuf/gittuf/internal/policy"
@@ -85,6 +86,7 @@ type wHook struct {
 }
 
 type wAuthz struct {
+	ForTag            bool // an authorization for a tag: To / PathTo are commits, From / PathFrom tag objects
 	Ref               string
 	From, To          int // commit number / tree number as named by the signed statement (From: commit, To: tree)
 	PathRef           string
@@ -102,6 +104,11 @@ type wEvent struct {
 	Signer  int // 0: unsigned entry
 	Targets []int
 	Skip    bool
+	// Kind "tag": an annotated tag object TagNum (numbered from 1000) on Commit, signed by TagSigner
+	// (0: unsigned), recorded for Ref by Signer; NoSetRef: the tag reference is not moved to it
+	TagNum    int
+	TagSigner int
+	NoSetRef  bool
 }
 
 type wCommit struct {
@@ -169,6 +176,8 @@ func (e *wEvent) coq() string {
 		return "(WEAttest " + coqList(as) + ")"
 	case "ref":
 		return fmt.Sprintf("(WERef %s %d%%N %d%%N)", coqStr(e.Ref), e.Commit, e.Signer)
+	case "tag":
+		return fmt.Sprintf("(WERef %s %d%%N %d%%N)", coqStr(e.Ref), e.TagNum, e.Signer)
 	case "ann":
 		ts := []string{}
 		for _, t := range e.Targets {
@@ -207,6 +216,8 @@ func (w *wWorld) human() []string {
 			out = append(out, fmt.Sprintf("%d policy rootv%d rootkeys=%v/%d targetskeys=%v/%d signed%v globals=%v files: %s", i, e.Pol.RootVersion, e.Pol.RootKeys, e.Pol.RootThr, e.Pol.TargetsKeys, e.Pol.TargetsThr, e.Pol.RootSigners, e.Pol.Globals, strings.Join(fs, " | ")))
 		case "ref":
 			out = append(out, fmt.Sprintf("%d push %s -> c%d signed by key %d", i, e.Ref, e.Commit, e.Signer))
+		case "tag":
+			out = append(out, fmt.Sprintf("%d tag %s -> tag object t%d (on c%d, signed by key %d) recorded by key %d, ref moved=%v", i, e.Ref, e.TagNum, e.Commit, e.TagSigner, e.Signer, !e.NoSetRef))
 		case "ann":
 			out = append(out, fmt.Sprintf("%d annotation %v skip=%v", i, e.Targets, e.Skip))
 		case "attest":
@@ -442,7 +453,19 @@ func buildWorldHook(w *wWorld, hook func(i int, b *builtWorld) error) (*builtWor
 		case "attest":
 			ents := []gitstore.TreeEntry{}
 			for _, a := range e.Auths {
-				stmt, err := attestations.NewReferenceAuthorizationForCommit(a.Ref, commitStr(a.From), b.trees[a.To].String())
+				toStr, pathToStr := "", ""
+				if a.ForTag {
+					toStr, pathToStr = commitStr(a.To), commitStr(a.PathTo)
+				} else {
+					toStr, pathToStr = b.trees[a.To].String(), b.trees[a.PathTo].String()
+				}
+				var stmt *ita.Statement
+				var err error
+				if a.ForTag {
+					stmt, err = attestations.NewReferenceAuthorizationForTag(a.Ref, commitStr(a.From), toStr)
+				} else {
+					stmt, err = attestations.NewReferenceAuthorizationForCommit(a.Ref, commitStr(a.From), toStr)
+				}
 				if err != nil {
 					return nil, err
 				}
@@ -455,7 +478,7 @@ func buildWorldHook(w *wWorld, hook func(i int, b *builtWorld) error) (*builtWor
 				if err != nil {
 					return nil, err
 				}
-				ents = append(ents, gitstore.TreeEntry{Path: "reference-authorizations/" + attestations.ReferenceAuthorizationPath(a.PathRef, commitStr(a.PathFrom), b.trees[a.PathTo].String()), ID: blob, Kind: gitstore.KindBlob})
+				ents = append(ents, gitstore.TreeEntry{Path: "reference-authorizations/" + attestations.ReferenceAuthorizationPath(a.PathRef, commitStr(a.PathFrom), pathToStr), ID: blob, Kind: gitstore.KindBlob})
 			}
 			for _, rv := range e.Reviews {
 				stmt, err := attestations.NewGitHubPullRequestApprovalAttestation(rv.Ref, commitStr(rv.From), b.trees[rv.To].String(), rv.Approvers, nil)
@@ -490,6 +513,27 @@ func buildWorldHook(w *wWorld, hook func(i int, b *builtWorld) error) (*builtWor
 				return nil, err
 			}
 			if err := b.recordSigned(rsl.NewReferenceEntry(e.Ref, b.commits[e.Commit]), e.Signer); err != nil {
+				return nil, err
+			}
+		case "tag":
+			if _, ok := b.commits[e.TagNum]; !ok {
+				var key []byte
+				if e.TagSigner != 0 {
+					key = poolKeyN(e.TagSigner).PEM
+				}
+				tid, err := b.m.createTag(b.commits[e.Commit], fmt.Sprintf("t%d", e.TagNum), "tag", key)
+				if err != nil {
+					return nil, err
+				}
+				b.commits[e.TagNum] = tid
+				b.commitOf[tid.String()] = e.TagNum
+			}
+			if !e.NoSetRef {
+				if err := b.m.SetReference(e.Ref, b.commits[e.TagNum]); err != nil {
+					return nil, err
+				}
+			}
+			if err := b.recordSigned(rsl.NewReferenceEntry(e.Ref, b.commits[e.TagNum]), e.Signer); err != nil {
 				return nil, err
 			}
 		case "ann":
